@@ -67,6 +67,11 @@ PROPS["C17"] = dict(units=["consts"], assumptions=[M_PRIME + " (the certified fa
 for _p in ("C04", "C05", "C06", "C07", "C12"):
     PROPS[_p]["units"] = list(PROPS[_p]["units"]) + ["consts"]
 
+A_ARK4 = "A-ARK-4: each ark_r1cs_std primitive used (FpVar new_witness/new_constant/square/inverse/negate/is_eq/conditionally_select/conditional_enforce_equal/to_bits_le/+,-,*; Boolean new_witness/and/or/not/is_eq/enforce_equal/select; AffineVar::new) is a sound and complete gadget for the operation it names (preludes/r1cs.rs)"
+PROPS["C14"] = dict(units=["r1cs_sound"], assumptions=[A_ARK4, M_PRIME + " (no zero divisors; a non-zero square has exactly two roots; zeta is a non-square)", M_DECAF, A_WF],
+    explanation="the verbatim gadget code is verified with every witness value left arbitrary and every enforced constraint taken as a fact: any satisfying assignment makes isqrt / sign / abs / encode / decode / Elligator / equality / select outputs satisfy the specification's relations; known finding D6 is the region den = 0 of isqrt (decode of s = q-1)",
+    not_decided=["AllocVar::new_variable (generic Borrow/closure plumbing) and the LazyElementVar RefCell layer of r1cs/element.rs, r1cs/lazy.rs, r1cs/ops.rs"])
+
 NOT_APPLICABLE = {
     "C15": "circuit shape / pinned Groth16 keys: the subject is the hidden ark_relations constraint store and binary key files; no pre/postcondition on a /repo function can state matrix equality across runs or SNARK verification (DESIGN.md C15)",
 }
